@@ -175,8 +175,8 @@ def poll_predicate(line, out):
     return None
 
 
-def run_block(ctx, name, lines, pred, env):
-    out1, out2, mis = vlib.diff_lines(ctx, name, lines, "plain", env=env)
+def run_block(ctx, name, lines, pred, env, variant="plain"):
+    out1, out2, mis = vlib.diff_lines(ctx, name, lines, variant, env=env)
     ctx.count(len(lines))
     for l in lines:
         ctx.distinct(hash(l))
@@ -587,6 +587,11 @@ def run(ctx):
         run_block(ctx, "stop-rule-grid", lines, poll_predicate, dict(env, TEXEL_VERIF_CLOCK="10"))
         if ctx.violations:
             break
+    if not quick and not ctx.violations:
+        # the same grids on the ASan+UBSan build: no signed overflow / invalid conversion inside the property's ranges
+        ctx.log("grids on the asan/ubsan build")
+        run_block(ctx, "alloc-grid-asan", gen_alloc(ctx, 300000), alloc_predicate, env, "asan")
+        run_block(ctx, "stop-rule-grid-asan", gen_poll(ctx, 100000), poll_predicate, dict(env, TEXEL_VERIF_CLOCK="10"), "asan")
     ctx.log("engine scenarios")
     scs = gen_scenarios(ctx, 1000 if quick else 20000)
     engine_block(ctx, bdir, scs, "grid")
